@@ -196,6 +196,7 @@ class SequentialCB(Evaluator):
 
                 n_zero_val += n_zeroes(eval_reward)
 
+            learn_time = 0
             if learn:
                 learn_reward = off_rwd if lrn_off else lrn_rwds(on_act)
                 n_zero_lrn += n_zeroes(learn_reward)
